@@ -249,6 +249,8 @@ def run(ctx: Ctx) -> None:
     from ..core import Alias
     from . import c16
 
+    if isinstance(ctx, Alias):
+        return
     c16.run(Alias(ctx, "C07.R9", "both workers realise the same connection-handler, idle-timer and single-task skeletons (C16.R2 on TCPServer.*, C16.R3 on the SingleTask helpers: cancel/replace under the lock)", only={"C16.R2", "C16.R3"}, where=["TCPServer.", "SingleTask."]))
     ctx.assume("not decided: expiry instants, that a busy connection is never closed by the timer under every interleaving, virtual-time behaviour; C07.R2 (stream-generated error responses end the stream) is decided by the typestate analysis reported under this property")
     from . import typestate_rules
